@@ -1392,9 +1392,9 @@ def gen_inputs(run, rng):
     cases += gen_labelled()
     cases += gen_texts(rng, quick)
     cases += gen_prefixes(rng, 30 if quick else 300)
-    cases += gen_lines(rng, 5 if quick else 60)
+    cases += gen_lines(rng, 40 if quick else 200)
     cases += gen_wide(rng, 12 if quick else 150)
-    cases += gen_dmptexts(rng, 150 if quick else 1500, 4 if quick else 40)
+    cases += gen_dmptexts(rng, 150 if quick else 1500, 16 if quick else 120)
     cases += gen_struct(rng, 500 if quick else 5000)
     cases += gen_texttags(rng, 500 if quick else 5000)
     cases += gen_subattrs(rng, 60 if quick else 600)
